@@ -458,10 +458,26 @@ def rule_HT1(ctx, tier):
             tg = call_target(t) or ""
             if tg.split("::")[-1] in DEADLINE and ("tonic::" in tg or "tokio::time::" in tg or "tower::" in tg):
                 dl.append((b_, bb, tg))
+    # message-size caps on the generated client: replies (get_subscription_info lists every locator of the user) are not bounded by
+    # any request limit, so a cap below tonic's own default (4 MiB) turns a legitimate reply into an undocumented error
+    for bid, b_ in P.bodies.items():
+        if not bid.startswith("teos::api::http::") or "::tests" in bid:
+            continue
+        for bb, t in b_.calls():
+            tg = call_target(t) or ""
+            if tg.split("::")[-1] in ("max_decoding_message_size", "max_encoding_message_size") and "PublicTowerServicesClient" in tg:
+                v_ = og.strip(arg_origin(ctx, b_, bb, 1))
+                while isinstance(v_, tuple) and v_ and v_[0] == "cast":
+                    v_ = og.strip(v_[1])
+                n_ = v_[1] if isinstance(v_, tuple) and v_ and v_[0] == "const" and isinstance(v_[1], int) else None
+                if n_ is not None and n_ >= 4 * 1024 * 1024:
+                    rr.ok("message-size cap %d >= tonic's default" % n_)
+                else:
+                    dl.append((b_, bb, tg))
     if not dl:
         rr.ok("no deadline or limit is put on the calls to the internal API (%d http bodies scanned)" % sum(1 for x in P.bodies if x.startswith("teos::api::http::") and "::tests" not in x))
     for b_, bb, tg in dl:
-        rr.fail("internal-call-deadline:%s" % tg.split("::")[-1], "the HTTP layer bounds its calls to the internal API with `%s`: when it fires the user gets tonic's Cancelled/DeadlineExceeded status, which has no documented code (catch-all UNEXPECTED_ERROR), and the synchronous handler still completes, so a non-200 answer changes the tower's state" % tg[-70:], where=b_.line_of(bb))
+        rr.fail("internal-call-deadline:%s" % tg.split("::")[-1], "the HTTP layer bounds its calls to the internal API with `%s`: when the bound is hit the user gets a status tonic made up (Cancelled / DeadlineExceeded / OutOfRange), which has no documented code (catch-all UNEXPECTED_ERROR) and which the client cannot parse as the reply; a synchronous handler cut off by a deadline still completes, so a non-200 answer changes the tower's state" % tg[-70:], where=b_.line_of(bb))
     # HTTP statuses: everything the layer can answer with is 200, a 4xx or 503 (never another 5xx), and the status a gRPC code is
     # turned into is the documented one; arms are identified by the error-code constant they carry, whatever the form of the match
     ALLOWED = {"OK", "BAD_REQUEST", "UNAUTHORIZED", "NOT_FOUND", "SERVICE_UNAVAILABLE", "METHOD_NOT_ALLOWED", "PAYLOAD_TOO_LARGE", "LENGTH_REQUIRED", "UNSUPPORTED_MEDIA_TYPE"}
